@@ -79,7 +79,8 @@ def c19_3(ctx):
         ctx.fail(fk, inner[0], 'a companion dict is recognised with `%s`, which depends on insertion order: a companion with the same keys in another order is broadcast whole to every leaf instead of being matched by key' % U(t),
                  witness="f({'x': 1, 'y': 2}, {'y': 20, 'x': 10})")
     else:
-        raise AnalysisError('unrecognised key-set test in _item_by_key: %s' % U(t))
+        ctx.fail(fk, inner[0], 'a companion dict is recognised with `%s`, which does not establish that it has EXACTLY the keys of the looped dict (sorted(value.keys()) == keys): a companion of the same size sharing only some keys is indexed for those and broadcast whole for the others' % U(t),
+                 witness="f({'x': 1, 'y': 2}, {'x': 10, 'z': 30})")
     r1 = [r for r in inner[0].body if isinstance(r, ast.Return)]
     if not r1 or N(r1[0].value) != '%s[%s]' % (value, key):
         ctx.fail(fk, inner[0], 'a matching companion dict is not indexed by the key')
